@@ -284,7 +284,23 @@ def rules(rep, m):
     try:
         ips = XS.run_all(cx, init, make_hook)
     except XS.Undecided as e:
-        raise AnalysisBroken("R-C15-3: the seeding routine cannot be executed abstractly (%s)" % e)
+        # a loop whose test reads the generator's own state has no fixed number of rounds: the number of discarded outputs
+        # then depends on the seed, which is a violation of the documented bootstrap, not an undecided shape
+        state_loops = [lp for lp in walk(init.body) if lp["kind"] in ("WhileStmt", "ForStmt", "DoStmt") and
+                       not (lp["kind"] == "DoStmt" and int_value(kids(lp)[1]) == 0) and
+                       "prng_state" in cx.canon(kids(lp)[0] if lp["kind"] == "WhileStmt" else kids(lp)[1] if lp["kind"] == "DoStmt" else kids(lp)[2])]
+        if state_loops:
+            lp = state_loops[0]
+            ctext = cx.canon(kids(lp)[0] if lp["kind"] == "WhileStmt" else kids(lp)[1] if lp["kind"] == "DoStmt" else kids(lp)[2])
+            r3.instance("warm-up loop test: %s" % ctext)
+            rep.finding(r3, init.name, "warmup:state-dependent", "the warm-up loop runs while '%s', a test on the generator's own "
+                        "state words: the number of discarded outputs is not the documented constant for every seed (a "
+                        "counter word close to 2^64 wraps, the test is false at once and nothing is discarded), so the stream "
+                        "for such a seed is not the documented one" % ctext[:120], where=m.rel(loc(lp)))
+            r3.fail()
+            ips = []
+        else:
+            raise AnalysisBroken("R-C15-3: the seeding routine cannot be executed abstractly (%s)" % e)
     want_seed = "param:" + seed
     wantw = {w: ("SM", want_seed, i_ + 1) for i_, w in enumerate("abcd")}
     seen3 = set()
